@@ -171,7 +171,9 @@ def _call(f, x, case, name, *args):
     buf = bytearray(x)
     # in-place operations work on buffers other code holds views of: every other call is made while a
     # memoryview export of the buffer is alive
-    export = memoryview(buf) if (len(x) + (x[0] if x else 0)) % 2 else None  # noqa: F841
+    # (buffers of two or more bytes only: CPython refuses a no-op assignment to an EMPTY extended slice of an
+    # exported bytearray, which is the interpreter's quirk, not a resize)
+    export = memoryview(buf) if len(x) >= 2 and (len(x) + x[0]) % 2 else None  # noqa: F841
     try:
         f(buf, *args)
     except Exception as ex:
